@@ -31,9 +31,9 @@ func TestVerif_C03(t *testing.T) {
 			kit.JournalDone()
 		}()
 		t.Repeat(map[string]func(*rapid.T){
-			"batch": func(t *rapid.T) { g.t = t; g.applyBatch(g.genBatchOp()) },
+			"batch":         func(t *rapid.T) { g.t = t; g.applyBatch(g.genBatchOp()) },
 			"rejectedBatch": g.rejectedBatchAction(),
-			"txn":   func(t *rapid.T) { g.t = t; g.applyTxn(g.genTxnOp()) },
+			"txn":           func(t *rapid.T) { g.t = t; g.applyTxn(g.genTxnOp()) },
 			"pagedQuery": func(t *rapid.T) {
 				g.t = t
 				op := Op{K: "pagedQuery",
